@@ -1114,7 +1114,7 @@ Qed.
 Lemma W_move okdt s s' : move okdt ackok s s' -> W s -> W s'.
 Proof.
   unfold W. intros Hm H. pose proof (fun p st => gone_move _ _ _ _ p st Hm) as Hg.
-  destruct Hm as [He Hj|x He Hj Hf|Hj Hw _ _ _|q Hj _ _ _ Hw|dt _ Hj _ Hw _ _|Hp Hn _ Hw Hj].
+  destruct Hm as [He Hj|x He Hj Hf|Hj Hw _ _ _|q Hj _ _ _ Hw|dt _ Hj _ Hw _ _|Hpr Hn _ Hw Hj].
   - destruct He as (_ & Hw & _ & _).
     assert (H1 : Forall (Wj s) (jobs s')).
     { eapply Forall_Forall2; [exact Hj|exact H|]. intros x y Hx [->|Hxy]; [exact Hx|].
@@ -1131,8 +1131,7 @@ Proof.
     eapply Forall_Forall2; [exact Hj|exact H|]. intros x y Hx Hr Hky.
     destruct Hr as [F|c Hc Hr|p code Hc Hr Hl Hp Halt].
     + destruct (Hx Hky) as [A B]. split.
-      * intros Hc Hr Hl p Hp. apply F; auto; [unfold worker_pids; rewrite Hky; exact Hp|].
-        apply A; assumption.
+      * intros Hc Hr Hl p Hp. apply (F Hc Hr Hl p); [unfold worker_pids; rewrite Hky; exact Hp|apply A; assumption].
       * intros t st Hl. destruct (B t st Hl) as (p & G & Hp). exists p. split; [apply Hg; exact G|exact Hp].
     + assert (Hk : kind x = KApply).
       { rewrite <- (jm_kind _ _ (job_set_mono x None (PTerminated c))). exact Hky. }
@@ -1145,10 +1144,172 @@ Proof.
       pose proof (A Hc Hr Hl p Hp) as Hin.
       destruct Halt as [(_ & Hex & Hcode)|(Hnot & _)]; [|contradiction].
       exists p. split; [|intros _; exact Hp].
-      unfold gone, in_pool, exited, exit_of, get_proc in *. rewrite Hp0, Hw. clear Hg. split; [|auto].
+      assert (Hex' : exited s' p = true) by (unfold exited, get_proc; rewrite Hpr; exact Hex).
+      assert (Hcode' : exit_of s' p = code) by (unfold exit_of, get_proc; rewrite Hpr; symmetry; exact Hcode).
+      split; [|split; assumption].
+      unfold in_pool. rewrite Hw.
       destruct (memZ p (filter (fun p0 => negb (exited s p0)) (wlist s))) eqn:E; [|reflexivity].
       exfalso. apply memZ_In in E. apply filter_In in E. destruct E as [_ E].
-      unfold exited, get_proc in E. rewrite Hex in E. discriminate.
+      rewrite Hex in E. discriminate.
 Qed.
 
 End Lost.
+
+Lemma acks_hist_ok S1 c tr :
+  acks_from_pool c tr -> (S1 -> acks_once c tr) -> hist_ok any_dt (ackok S1) c tr.
+Proof.
+  intros Hp Ho tr1 e tr2 E. destruct e; cbn; unfold any_dt; auto.
+  intros x Hg Hk. split.
+  - apply (Hp tr1 j i p tr2 E).
+  - intros Hs. apply (Ho Hs tr1 j i p tr2 x E Hg Hk).
+Qed.
+
+Theorem W_reachable S1 c tr :
+  acks_from_pool c tr -> (S1 -> acks_once c tr) -> W S1 (run c tr).
+Proof.
+  intros Hp Ho. apply (run_inv any_dt (ackok S1)).
+  - apply W_move.
+  - unfold W. rewrite jobs_init. constructor.
+  - apply acks_hist_ok; assumption.
+Qed.
+
+(* C04, conversely, history level: no Apply job carries a lost-worker marker unless a worker
+   really exited with the status the marker names and has left the pool list *)
+Theorem marked_lost_worker_exited c tr j x t st :
+  acks_from_pool c tr ->
+  get_job (run c tr) j = Some x -> kind x = KApply -> worker_lost x = Some (t, st) ->
+  exists p, in_pool (run c tr) p = false /\ exited (run c tr) p = true
+            /\ st = exit_of (run c tr) p.
+Proof.
+  intros Hp Hg Hk Hl. pose proof (W_reachable False c tr Hp (fun f => match f with end)) as H.
+  unfold W in H. rewrite Forall_forall in H. destruct (H x (get_job_In _ _ _ Hg) Hk) as [_ B].
+  destruct (B t st Hl) as (p & (G1 & G2 & G3) & _). exists p. auto.
+Qed.
+
+(* ... and that worker is the job's recorded owner when every Apply job is acknowledged at
+   most once *)
+Theorem marked_lost_owner_exited c tr j x t st :
+  acks_from_pool c tr -> acks_once c tr ->
+  get_job (run c tr) j = Some x -> kind x = KApply -> worker_lost x = Some (t, st) ->
+  exists p, In p (wp x) /\ in_pool (run c tr) p = false /\ exited (run c tr) p = true
+            /\ st = exit_of (run c tr) p.
+Proof.
+  intros Hp Ho Hg Hk Hl. pose proof (W_reachable True c tr Hp (fun _ => Ho)) as H.
+  unfold W in H. rewrite Forall_forall in H. destruct (H x (get_job_In _ _ _ Hg) Hk) as [_ B].
+  destruct (B t st Hl) as (p & (G1 & G2 & G3) & Hin). exists p. auto.
+Qed.
+
+(* the other half of the invariant: an unresolved cached Apply job WITHOUT a marker has its
+   owner in the pool list (so every owner that left was noticed by the pass that reaped it) *)
+Theorem unmarked_owner_in_pool c tr j x p :
+  acks_from_pool c tr ->
+  get_job (run c tr) j = Some x -> kind x = KApply ->
+  incache x = true -> ready x = false -> worker_lost x = None -> In p (wp x) ->
+  in_pool (run c tr) p = true.
+Proof.
+  intros Hp Hg Hk Hc Hr Hl Hin. pose proof (W_reachable False c tr Hp (fun f => match f with end)) as H.
+  unfold W in H. rewrite Forall_forall in H. destruct (H x (get_job_In _ _ _ Hg) Hk) as [A _].
+  apply memZ_In. apply A; assumption.
+Qed.
+
+(* ---- a decidable form of the two hypotheses, for concrete histories *)
+Fixpoint acks_okb (once : bool) (s : pool) (tr : list event) : bool :=
+  match tr with
+  | [] => true
+  | e :: r =>
+    (match e with
+     | EAck j i p =>
+       in_pool s p
+       && (negb once || match get_job s j with
+                        | Some x => match kind x, wp x with KApply, _ :: _ => false | _, _ => true end
+                        | None => true
+                        end)
+     | _ => true
+     end) && acks_okb once (fst (step s e)) r
+  end.
+
+Lemma acks_okb_sound : forall tr once s,
+    acks_okb once s tr = true ->
+    forall tr1 j i p tr2, tr = tr1 ++ EAck j i p :: tr2 ->
+      in_pool (run_from s tr1) p = true
+      /\ (once = true -> forall x, get_job (run_from s tr1) j = Some x -> kind x = KApply -> wp x = []).
+Proof.
+  induction tr as [|e tr IH]; intros once s H tr1 j i p tr2 E; [destruct tr1; discriminate|].
+  cbn [acks_okb] in H. apply andb_true_iff in H. destruct H as [H1 H2].
+  destruct tr1 as [|e1 tr1]; cbn in E; inversion E; subst.
+  - cbn [run_from fold_left]. apply andb_true_iff in H1. destruct H1 as [Ha Hb]. split; [exact Ha|].
+    intros -> x Hg Hk. cbn in Hb. unfold run_from in Hg. cbn in Hg. rewrite Hg, Hk in Hb.
+    destruct (wp x); [reflexivity|discriminate].
+  - apply (IH once (fst (step s e1)) H2 tr1 j i p tr2 eq_refl).
+Qed.
+
+Lemma acks_okb_from_pool c tr once : acks_okb once (init c) tr = true -> acks_from_pool c tr.
+Proof. intros H tr1 j i p tr2 E. exact (proj1 (acks_okb_sound tr once (init c) H tr1 j i p tr2 E)). Qed.
+
+Lemma acks_okb_once c tr : acks_okb true (init c) tr = true -> acks_once c tr.
+Proof.
+  intros H tr1 j i p tr2 x E. exact (proj2 (acks_okb_sound tr true (init c) H tr1 j i p tr2 E) eq_refl x).
+Qed.
+
+Definition h04_cfg := mkcfg 2 None None None None 1 false false.
+Definition h04_tr : list event := [EApply None None None None; EAck 0 None 0; EExit 0 (-9); ETick].
+
+Example marked_lost_witness :
+  acks_from_pool h04_cfg h04_tr /\ acks_once h04_cfg h04_tr
+  /\ match get_job (run h04_cfg h04_tr) 0 with
+     | Some x => kind x = KApply /\ worker_lost x = Some (1000, -9) /\ wp x = [0]
+                 /\ in_pool (run h04_cfg h04_tr) 0 = false /\ exited (run h04_cfg h04_tr) 0 = true
+                 /\ exit_of (run h04_cfg h04_tr) 0 = -9 /\ wlist (run h04_cfg h04_tr) = [1; 2]
+     | None => False
+     end.
+Proof.
+  split; [apply (acks_okb_from_pool _ _ true); vm_compute; reflexivity|].
+  split; [apply acks_okb_once; vm_compute; reflexivity|]. vm_compute. repeat split.
+Qed.
+
+(* ---- "some p in wp x is not in the pool list" is FALSE without the at-most-once hypothesis:
+   ApplyResult._ack overwrites the owner, also on a job that already carries a marker *)
+Theorem marked_lost_owner_alive_refuted :
+  exists c tr j x t st,
+    acks_from_pool c tr /\ get_job (run c tr) j = Some x /\ kind x = KApply
+    /\ worker_lost x = Some (t, st)
+    /\ forall p, In p (wp x) -> in_pool (run c tr) p = true.
+Proof.
+  exists h04_cfg, (h04_tr ++ [EAck 0 None 1]), 0,
+         (nth 0 (jobs (run h04_cfg (h04_tr ++ [EAck 0 None 1]))) (new_job (init h04_cfg) KApply)),
+         1000, (-9).
+  split; [apply (acks_okb_from_pool _ _ false); vm_compute; reflexivity|].
+  split; [vm_compute; reflexivity|]. split; [vm_compute; reflexivity|].
+  split; [vm_compute; reflexivity|].
+  intros p Hp. vm_compute in Hp. destruct Hp as [<-|[]]. vm_compute. reflexivity.
+Qed.
+
+(* ---- and acks_from_pool is needed: an ACK naming a pid that already left the pool list makes
+   a later pass write a marker with status 0, whatever that worker's real exit status was
+   (known finding C04:owner-gone-but-no-marker) *)
+Definition h04_late : list event :=
+  [EApply None None None None; EExit 0 (-11); ETick; EAck 0 None 0; EExit 1 (-9); ETick].
+
+Theorem marked_lost_needs_acks_from_pool :
+  exists c tr j x t st,
+    get_job (run c tr) j = Some x /\ kind x = KApply /\ worker_lost x = Some (t, st)
+    /\ acks_okb false (init c) tr = false
+    /\ forall p, In p (wp x) -> exit_of (run c tr) p <> st.
+Proof.
+  exists h04_cfg, h04_late, 0,
+         (nth 0 (jobs (run h04_cfg h04_late)) (new_job (init h04_cfg) KApply)), 1000, 0.
+  split; [vm_compute; reflexivity|]. split; [vm_compute; reflexivity|].
+  split; [vm_compute; reflexivity|]. split; [vm_compute; reflexivity|].
+  intros p Hp. vm_compute in Hp. destruct Hp as [<-|[]]. vm_compute. discriminate.
+Qed.
+
+Print Assumptions timed_out_was_due.
+Print Assumptions marked_lost_worker_exited.
+Print Assumptions marked_lost_owner_exited.
+Print Assumptions unmarked_owner_in_pool.
+Print Assumptions exited_worker_stays_gone.
+Print Assumptions map_callbacks_at_most_once.
+Print Assumptions map_outcome_stable.
+Print Assumptions empty_map.
+Print Assumptions map_negative_length_refuted.
+Print Assumptions marked_lost_owner_alive_refuted.
